@@ -91,7 +91,7 @@ TInit == Init /\ l = 1 /\ due = {} /\ prog = 0
 TReset ==
   /\ IsEv("Reset")
   /\ inner' = Fresh /\ queue' = <<>> /\ nseq' = 1 /\ accepted' = <<>> /\ virt' = Fresh
-  /\ cl' = [c \in Clients |-> IdleRec] /\ wk' = [pc |-> "idle", seq |-> 0]
+  /\ cl' = [c \in Clients |-> IdleRec] /\ wk' = [w \in Workers |-> WIdle]
   /\ cnt' = [ops |-> 0, restarts |-> 0] /\ taken' = {}
   /\ due' = {} /\ prog' = E.prog /\ l' = l + 1
 
@@ -140,10 +140,26 @@ TInner ==
   /\ IsEv("Inner") /\ E.p \in Clients
   /\ Inner(E.p)
   /\ E.op = cl[E.p].call.op
-  /\ E.err = cl'[E.p].res.err
+  /\ LET op == cl[E.p].call.op IN
+     IF op \in OpaqueReads THEN TRUE
+     ELSE IF op = "GetObjectTagging" THEN (E.err = "") = (cl'[E.p].res.err = "")
+     ELSE E.err = cl'[E.p].res.err
   /\ IsWrite(cl[E.p].call) => ViewsMatch(E.views, inner')
   /\ ReportRead(E.p) /\ ReportCond(E.p)
   /\ due' = due \cup {E.p} /\ prog' = prog /\ l' = l + 1
+
+\* the logged answer of a read against the model's
+VersionsOf(vs) == {[k |-> vs[i].k, vid |-> vs[i].vid, dm |-> vs[i].dm, latest |-> vs[i].latest] : i \in 1..Len(vs)}
+ReadAgrees(call, r) ==
+  /\ call.op \notin OpaqueReads => (E.err = "") = (r.err = "")
+  /\ call.op \notin OpaqueReads \cup {"GetObjectTagging"} => E.err = r.err
+  /\ (r.err = "" /\ call.op = "GetObject") => (E.content = r.v[1].content /\ E.objvid = r.v[1].vid)
+  /\ (r.err = "" /\ call.op = "HeadObject") => (E.objvid = r.v[1].vid /\ E.etagblob = r.v[1].blob)
+  /\ (r.err = "" /\ call.op = "GetObjectTagging") => E.tags = r.v[1]
+  /\ (r.err = "" /\ call.op = "ListObjects") => ToSet(E.keys) = r.v[1]
+  /\ (r.err = "" /\ call.op = "ListObjectVersions") => VersionsOf(E.versions) = r.v[1]
+  /\ (r.err = "" /\ call.op = "GetVersioning") => E.ver = r.v[1]
+  /\ (r.err = "" /\ call.op = "ListBuckets") => ToSet(E.buckets) = r.v[1]
 
 TReturn ==
   /\ IsEv("Return") /\ E.p \in due
@@ -151,44 +167,42 @@ TReturn ==
          call == cl[c].call
          r == cl[c].res IN
      /\ cl[c].pc = "idle" /\ E.op = call.op
-     /\ E.err = r.err
-     /\ (r.err = "" /\ call.op = "GetObject") => (E.content = r.v[1].content /\ E.objvid = r.v[1].vid)
-     /\ (r.err = "" /\ call.op = "ListObjects") => ToSet(E.keys) = r.v[1]
-     /\ (r.err = "" /\ call.op = "ListBuckets") => ToSet(E.buckets) = r.v[1]
+     /\ IF IsRead(call) THEN ReadAgrees(call, r) ELSE E.err = r.err
      /\ (r.err = "" /\ r.v # <<>> /\ call.op = "PutObject") => E.vid = r.v[1].vid
      /\ (r.err = "" /\ r.v # <<>> /\ call.op = "DeleteObject") => (E.vid = r.v[1].vid /\ E.dm = r.v[1].dm)
   /\ due' = due \ {E.p}
   /\ UNCHANGED <<vars, prog>> /\ l' = l + 1
 
+\* a pass that claims nothing: the queue is empty, the worker is busy, or the OLDEST entry is held
 TClaim ==
-  /\ IsEv("Claim")
+  /\ IsEv("Claim") /\ E.p \in Workers
   /\ IF E.claimed
-     THEN Claim /\ E.eseq = wk'.seq
-     ELSE /\ ~(wk.pc = "idle" /\ queue # <<>> /\ ~queue[1].claimed)
+     THEN Claim(E.p) /\ E.eseq = wk'[E.p].seq
+     ELSE /\ ~(wk[E.p].pc = "idle" /\ queue # <<>> /\ queue[1].owner = "")
           /\ UNCHANGED vars
   /\ UNCHANGED <<due, prog>> /\ l' = l + 1
 
 TReplay ==
-  /\ IsEv("Replay")
-  /\ Replay
-  /\ LET e == queue[QIdx(wk.seq)] IN
+  /\ IsEv("Replay") /\ E.p \in Workers
+  /\ Replay(E.p)
+  /\ LET e == queue[QIdx(wk[E.p].seq)] IN
      E.eseq = e.seq /\ E.op = e.op /\ E.err = ApplyEntry(inner, e).r.err
   /\ ViewsMatch(E.views, inner')
   /\ UNCHANGED <<due, prog>> /\ l' = l + 1
 
 TFinalize ==
-  /\ IsEv("Finalize") /\ E.deleted /\ E.eseq = wk.seq
-  /\ Finalize
+  /\ IsEv("Finalize") /\ E.p \in Workers /\ E.deleted /\ E.eseq = wk[E.p].seq
+  /\ Finalize(E.p)
   /\ UNCHANGED <<due, prog>> /\ l' = l + 1
 
 TRelease ==
-  /\ IsEv("Release") /\ E.released /\ E.eseq = wk.seq
-  /\ Release
+  /\ IsEv("Release") /\ E.p \in Workers /\ E.released /\ E.eseq = wk[E.p].seq
+  /\ Release(E.p)
   /\ UNCHANGED <<due, prog>> /\ l' = l + 1
 
 \* the queue table after the step
 QSeqs == [i \in 1..Len(queue) |-> queue[i].seq]
-QClaimed == SelectSeq(QSeqs, LAMBDA s : queue[QIdx(s)].claimed)
+QClaimed == SelectSeq(QSeqs, LAMBDA s : queue[QIdx(s)].owner # "")
 TStepEnd ==
   /\ IsEv("StepEnd")
   /\ E.q = QSeqs /\ E.claimed = QClaimed
@@ -219,11 +233,7 @@ TFReset ==
   /\ virt' = Fresh /\ accepted' = <<>> /\ prog' = E.prog /\ l' = l + 1
   /\ UNCHANGED <<inner, queue, nseq, cl, wk, cnt, taken, due>>
 
-FResOK(call, r) ==
-  /\ E.err = r.err
-  /\ (r.err = "" /\ call.op = "GetObject") => (E.content = r.v[1].content /\ E.objvid = r.v[1].vid)
-  /\ (r.err = "" /\ call.op = "ListObjects") => ToSet(E.keys) = r.v[1]
-  /\ (r.err = "" /\ call.op = "ListBuckets") => ToSet(E.buckets) = r.v[1]
+FResOK(call, r) == ReadAgrees(call, r)
 TFCall ==
   /\ IsEv("FCall") /\ CallOf(E.call) \in Calls
   /\ LET call == CallOf(E.call) IN
